@@ -377,6 +377,7 @@ func runC12(tier string, seed uint64, o *Out) error {
 // c12SQL runs one predicate at the WHERE and HAVING call sites, bare and parenthesised.
 func c12SQL(sqlPred, model string, vals []any) ([]string, error) {
 	var out []string
+	sentinelPred := model
 	rowOf := func(i int, v any, present bool) map[string]any {
 		m := map[string]any{"id": i}
 		if present {
@@ -436,6 +437,25 @@ func c12SQL(sqlPred, model string, vals []any) ([]string, error) {
 		})
 		for i, x := range ins {
 			s.Emit(rowOf(i, x.v, x.present))
+		}
+		// a final row that the predicate accepts (when the pool has one) marks the end of the FIFO:
+		// wait for it first, so that a loaded machine does not cut the observation short
+		if c, err := condition.NewExprCondition("(" + sentinelPred + ")"); err == nil {
+			for _, v := range vals {
+				if c.Evaluate(map[string]any{"x": v}) {
+					s.Emit(rowOf(len(ins), v, true))
+					for k := 0; k < 500; k++ {
+						mu.Lock()
+						done := seen[len(ins)]
+						mu.Unlock()
+						if done {
+							break
+						}
+						time.Sleep(10 * time.Millisecond)
+					}
+					break
+				}
+			}
 		}
 		waitQuiet(func() int { mu.Lock(); defer mu.Unlock(); return len(seen) })
 		var r []string
